@@ -30,6 +30,13 @@ static int registry_len(void)
     return n;
 }
 
+static int registry_find(int desc)
+{
+    int n = 0;
+    for (struct ec_backend *b = active_instances.slh_first; b; b = b->link.sle_next) { if (b->idesc == desc) return 1; if (++n > 100000) break; }
+    return 0;
+}
+
 /* ---------------------------------------------------------------- quiescent-point conservation */
 typedef struct { ledger_t l; } qp_t;
 static void q_begin(qp_t *q) { ledger_get(&q->l); }
@@ -146,6 +153,48 @@ static void c13_dead_descriptor(live_t *L, int d, const char *dn)
     CASE("get_minimum_encode_size", refuse("C13", "get_minimum_encode_size", liberasurecode_get_minimum_encode_size(d)));
     CASE("get_fragment_size", refuse("C13", "get_fragment_size", liberasurecode_get_fragment_size(d, 1000)));
 #undef CASE
+}
+
+/* a descriptor destroyed by ANOTHER thread than the one that used it last: refused there too */
+#include <pthread.h>
+#include <semaphore.h>
+typedef struct { int d; sem_t used, destroyed; int before[3], after[6]; uint64_t len, flen; char **lst; int n; const uint8_t *data; } xthr_t;
+static void *xthr_main(void *v)
+{
+    xthr_t *t = v;
+    t->before[0] = liberasurecode_get_fragment_size(t->d, 1000); t->before[1] = liberasurecode_get_aligned_data_size(t->d, 1000); t->before[2] = liberasurecode_get_minimum_encode_size(t->d);
+    sem_post(&t->used);
+    sem_wait(&t->destroyed);
+    t->after[0] = liberasurecode_get_fragment_size(t->d, 1000); t->after[1] = liberasurecode_get_aligned_data_size(t->d, 1000); t->after[2] = liberasurecode_get_minimum_encode_size(t->d);
+    { char **ed = POISON, **ep = POISON; uint64_t fl = 0; t->after[3] = liberasurecode_encode(t->d, (char *)t->data, t->len, &ed, &ep, &fl); }
+    { char *out = POISON; uint64_t ol = 0; t->after[4] = liberasurecode_decode(t->d, t->lst, t->n, t->flen, 0, &out, &ol); }
+    t->after[5] = liberasurecode_instance_destroy(t->d);
+    return NULL;
+}
+static void *xthr_destroy_only(void *v) { xthr_t *t = v; t->after[5] = liberasurecode_instance_destroy(t->d); return NULL; }
+static void c13_dead_descriptor_other_thread(live_t *L)
+{
+    if (!mon_case("%s|dead-desc=destroyed-by-another-thread", L->ck)) return;
+    qp_t q; q_begin(&q);
+    cfg_t c = L->c; int d = lec_create(&c);
+    if (d <= 0) { mon_viol("C13", "setup-failed", "create rc=%d", d); mon_end(); return; }
+    char *lst[64]; for (int i = 0; i < L->s.n; i++) lst[i] = (char *)L->s.frag[i];
+    xthr_t t; memset(&t, 0, sizeof t); t.d = d; t.len = L->s.len; t.flen = L->s.flen; t.lst = lst; t.n = L->s.n; t.data = L->data;
+    sem_init(&t.used, 0, 0); sem_init(&t.destroyed, 0, 0);
+    pthread_t th; pthread_create(&th, NULL, xthr_main, &t);
+    sem_wait(&t.used);
+    int drc = liberasurecode_instance_destroy(d);
+    sem_post(&t.destroyed);
+    pthread_join(th, NULL);
+    mon_count("evaluations", 6); mon_count("dead_descriptor_calls_from_another_thread", 6);
+    if (drc != 0) mon_viol("C13", "destroy-failed", "destroy from the second thread returned %d", drc);
+    if (t.before[0] < 0 || t.before[1] < 0 || t.before[2] < 0) mon_viol("C13", "live-descriptor-refused", "size queries on a live descriptor from another thread: %d/%d/%d", t.before[0], t.before[1], t.before[2]);
+    static const char *nm[] = { "get_fragment_size", "get_aligned_data_size", "get_minimum_encode_size", "encode", "decode", "instance_destroy" };
+    for (int i = 0; i < 6; i++) if (t.after[i] >= 0) { mon_viol("C13", "not-refused", "%s on a descriptor that another thread has destroyed returned %d, the property requires a negative error code", nm[i], t.after[i]); break; }
+    sem_destroy(&t.used); sem_destroy(&t.destroyed);
+    q_zero(&q, "C13", "create, use on one thread, destroy on another, use again");
+    mon_distinct("nontrivial", mon_hash_str(L->ck, 7171));
+    mon_end();
 }
 
 static void c13_null_and_ranges(live_t *L)
@@ -311,6 +360,7 @@ static void run_invalid(void)
         for (size_t i = 0; i < sizeof dead_descs_fixed / sizeof dead_descs_fixed[0]; i++) { snprintf(dn, sizeof dn, "%d", dead_descs_fixed[i]); c13_dead_descriptor(&L, dead_descs_fixed[i], dn); }
         if (destroyed > 0) c13_dead_descriptor(&L, destroyed, "destroyed");
         c13_dead_descriptor(&L, L.desc + 1000, "never-issued");
+        c13_dead_descriptor_other_thread(&L);
         c13_null_and_ranges(&L);
         /* the live instance is still intact after all the refused calls */
         if (mon_case("%s|still-functional", ck)) { live_roundtrip(&L, "C13", "after refused calls", 0); mon_count("evaluations", 1); mon_end(); }
@@ -577,6 +627,32 @@ static void dfs(int *acts, int depth, int maxd, hist_t *shadow)
     }
 }
 
+static void helper_thread_destroy_rounds(const char *prop)
+{
+    /* "a destroyed descriptor is refused by every entry point" also when the destroy came from another thread than the one that
+     * used the descriptor last (no overlap in time: the helper thread is joined before the descriptor is used again) */
+    for (int round = 0; round < 6; round++) {
+        if (!mon_case("destroyed-by-helper-thread|round=%d", round)) continue;
+        cfg_t ca = { round & 1 ? EC_BACKEND_FLAT_XOR_HD : EC_BACKEND_LIBERASURECODE_RS_VAND, round & 1 ? 5 : 4, round & 1 ? 5 : 2, round & 1 ? 3 : 2, 0, CHKSUM_CRC32 };
+        cfg_t cb = { round & 2 ? EC_BACKEND_NULL : EC_BACKEND_LIBERASURECODE_RS_VAND, 3, 3, 3, 0, CHKSUM_NONE };
+        live_t A, B;
+        if (live_open(&A, &ca, 500 + (uint64_t)round, MO.seed) != 0 || live_open(&B, &cb, 300, MO.seed) != 0) { mon_viol(prop, "create-failed", "setup"); mon_end(); continue; }
+        live_roundtrip(&B, prop, "second instance", 0);
+        live_roundtrip(&A, prop, "instance used last by this thread", 1);
+        xthr_t t; memset(&t, 0, sizeof t); t.d = A.desc;
+        pthread_t th; pthread_create(&th, NULL, xthr_destroy_only, &t); pthread_join(th, NULL);
+        mon_count("evaluations", 5); mon_count("descriptors_destroyed_by_a_helper_thread", 1);
+        if (t.after[5] != 0) mon_viol(prop, "destroy-failed", "destroy on the helper thread returned %d", t.after[5]);
+        int r0 = liberasurecode_get_fragment_size(A.desc, 1000), r1 = liberasurecode_encode_cleanup(A.desc, NULL, NULL), r2 = liberasurecode_decode_cleanup(A.desc, NULL), r3 = liberasurecode_get_minimum_encode_size(A.desc), r4 = liberasurecode_instance_destroy(A.desc);
+        if (r0 >= 0 || r1 >= 0 || r2 >= 0 || r3 >= 0 || r4 >= 0) mon_viol(prop, "dead-descriptor-accepted", "descriptor %d destroyed by a helper thread is still accepted by the thread that used it last: %d/%d/%d/%d/%d", A.desc, r0, r1, r2, r3, r4);
+        if (registry_find(A.desc)) mon_viol(prop, "dead-descriptor-registered", "descriptor %d still registered after destroy", A.desc);
+        live_roundtrip(&B, prop, "other instance after the destroy", 1);
+        A.desc = -1; live_close(&A); live_close(&B);
+        mon_distinct("nontrivial", mon_hash_u64((uint64_t)round, 1414));
+        mon_end();
+    }
+}
+
 static void run_registry(void)
 {
     int acts[256];
@@ -612,6 +688,7 @@ static void run_registry(void)
         int t = perm[i]; perm[i] = perm[j]; perm[j] = t;
         for (int lo = i + 1, hi = 3; lo < hi; lo++, hi--) { t = perm[lo]; perm[lo] = perm[hi]; perm[hi] = t; }
     }
+    helper_thread_destroy_rounds("C14");
     /* many instances alive at once (nothing in the interface bounds their number): descriptors stay unique, every one of a
      * rotating sample keeps round-tripping while others come and go, everything is gone at the end */
     for (int round = 0; round < (MO.thorough ? 6 : 2); round++) {
@@ -890,6 +967,7 @@ static void run_leaks(void)
         mon_end();
     }
     run_leaks_systematic();
+    helper_thread_destroy_rounds("C16");     /* use after a destroy that came from another thread: refused, no freed memory touched */
     if (mon_case_all("final-leakcheck")) { q_leakcheck("C16", "end of all histories"); mon_end(); }
 }
 
@@ -924,8 +1002,10 @@ static int oom_do(live_t *L, const oop_t *o, int *exact)
               rc = liberasurecode_encode(L->desc, (char *)L->data, L->s.len, &ed, &ep, &fl);
               if (rc == 0) { if (fl != L->s.flen) *exact = 0; else for (int i = 0; i < n; i++) if (memcmp(L->s.frag[i], i < k ? ed[i] : ep[i - k], fl)) *exact = 0;
                              liberasurecode_encode_cleanup(L->desc, ed, ep); } } break;
-    case 1: { char *out = NULL; uint64_t ol = 0; rc = liberasurecode_decode(L->desc, lst, cnt, L->s.flen, o->force, &out, &ol);
-              if (rc == 0) { *exact = ol == L->s.len && !memcmp(out, L->data, L->s.len); liberasurecode_decode_cleanup(L->desc, out); } } break;
+    case 1: { char *mine = malloc(48); memset(mine, 0x6B, 48); char *out = mine; uint64_t ol = 0; rc = liberasurecode_decode(L->desc, lst, cnt, L->s.flen, o->force, &out, &ol);
+              if (rc == 0) { *exact = ol == L->s.len && !memcmp(out, L->data, L->s.len); if (out != mine) liberasurecode_decode_cleanup(L->desc, out); }
+              for (int q = 0; q < 48; q++) if (mine[q] != 0x6B) *exact = 0;          /* the block the output pointer held on entry is the caller's */
+              free(mine); } break;
     case 2: { uint8_t *ob = malloc(L->s.flen); memset(ob, 0xCD, L->s.flen); rc = liberasurecode_reconstruct_fragment(L->desc, lst, cnt, L->s.flen, o->dest, (char *)ob);
               if (rc == 0) *exact = !memcmp(ob, L->s.frag[o->dest], L->s.flen); free(ob); } break;
     case 3: { int R[3] = { o->dest, -1, -1 }, X[2] = { n >= 3 ? (o->dest + 1) % n : -1, -1 }, N[40]; rc = liberasurecode_fragments_needed(L->desc, R, X, N); } break;
@@ -1271,8 +1351,13 @@ static int run_script(const cfg_t *c, const sstep_t *sc, int ns, const char *wha
                     liberasurecode_encode_cleanup(desc, ed, ep);
                 }
             } break;
-            case 1: { char *out = NULL; uint64_t ol = 0; rc = liberasurecode_decode(desc, lst, cnt, S.flen, 0, &out, &ol);
-                      if (rc == 0) { exact = ol == len && !memcmp(out, data, len); liberasurecode_decode_cleanup(desc, out); } } break;
+            case 1: { /* the caller's output variables are not empty on entry: they still hold an earlier, unrelated block of the
+                       * caller's own (a failing call must not release what it did not allocate) */
+                      char *mine = malloc(64); memset(mine, 0x6B, 64); char *out = mine; uint64_t ol = 0x1234;
+                      rc = liberasurecode_decode(desc, lst, cnt, S.flen, 0, &out, &ol);
+                      if (rc == 0) { exact = ol == len && !memcmp(out, data, len); if (out != mine) liberasurecode_decode_cleanup(desc, out); }
+                      for (int q = 0; q < 64; q++) if (mine[q] != 0x6B) { mon_viol("C17", "caller-block-touched", "%s: decode (rc %d) modified or released the block the caller's output pointer held on entry", what, rc); break; }
+                      free(mine); } break;
             case 2: { uint8_t *o = malloc(S.flen); rc = liberasurecode_reconstruct_fragment(desc, lst, cnt, S.flen, sc[st].dest, (char *)o);
                       if (rc == 0) exact = !memcmp(o, S.frag[sc[st].dest], S.flen); free(o); } break;
             case 3: { int R[2] = { sc[st].dest, -1 }, X[1] = { -1 }, N[40]; rc = liberasurecode_fragments_needed(desc, R, X, N); } break;
